@@ -626,8 +626,8 @@ theorem P.markerTypeOf_ext (p : P) (ty : MType) (r : P × Nat) (h : p.markerType
         refine ⟨?_, by simp, by simp⟩
         exact ⟨by simp, by simp, by simp, e.cats, fun i th hi => ⟨th, by simpa using hi, .refl _, NsExt.refl _⟩⟩
 
-theorem P.marker_ext (p : P) (t : Nat) (ty : MType) (name : Nat) (strs : List Nat) :
-    Ext p (p.marker t ty name strs).1 := by
+theorem P.marker_ext (p : P) (t : Nat) (ty : MType) (name : Nat) (strs : List Nat) (tm : MTiming) :
+    Ext p (p.marker t ty name strs tm).1 := by
   unfold P.marker
   split
   · exact Ext.refl p
@@ -769,7 +769,7 @@ theorem step_ext (p : P) (hg : StrInv p.gstrings) (op : Op) : Ext p (step p op).
   | sameSample t => simp only [step]; exact p.sameSample_ext t
   | allocSample t st => simp only [step]; exact p.allocSample_ext t st
   | markerType a b c => simp only [step]; split <;> exact same _ rfl rfl rfl rfl
-  | marker t ty n strs => simp only [step]; exact p.marker_ext t ty n strs
+  | marker t ty n strs tm => simp only [step]; exact p.marker_ext t ty n strs tm
   | markerStack t m st => simp only [step]; exact p.markerStack_ext t m st
   | counter a => simp only [step]; split <;> exact same _ rfl rfl rfl rfl
   | counterSample a => simp only [step]; split <;> exact same _ rfl rfl rfl rfl
